@@ -87,32 +87,44 @@ def cmd_run(prop, tier, runs=None, budget=None, quiet=False):
     for v in sorted(batch.violations, key=lambda v: v['index']):
         by_sig.setdefault(v['signature'], []).append(v)
     for sig, vs in list(by_sig.items())[:8]:
-        v = vs[0]
-        v_engine = by_engine[v.get('engine', engine_name)]
-        plan, n_exec = core.shrink(v_engine, v['plan'], prop, tier, sig)
-        res = core.execute_plan(v_engine, copy.deepcopy(plan), prop, tier)
-        if not (res.verdict == 'violation' and res.signature == sig):
-            # shrunk plan does not reproduce (should not happen): fall back to the original
-            plan = v['plan']
+        # A signature may cover a listed finding and a new violation at once: split the runs.
+        groups = [('known', [v for v in vs if core.match_known_finding(
+                      prop, sig, v['plan'], v['detail']) is not None]),
+                  ('new', [v for v in vs if core.match_known_finding(
+                      prop, sig, v['plan'], v['detail']) is None])]
+        for kind, group in groups:
+            if not group:
+                continue
+            v = group[0]
+            v_engine = by_engine[v.get('engine', engine_name)]
+            want_known = kind == 'known'
+            plan, n_exec = core.shrink(
+                v_engine, v['plan'], prop, tier, sig,
+                accept=lambda p_, r_: (core.match_known_finding(
+                    prop, sig, p_, r_.detail) is not None) == want_known)
             res = core.execute_plan(v_engine, copy.deepcopy(plan), prop, tier)
-        kf = core.match_known_finding(prop, sig, plan)
-        path = core.write_replay(prop, v.get('engine', engine_name), plan, sig, res.detail,
-                                 res.log_digest, v['seed'], tier)
-        if kf is not None:
-            known_hits.append({'id': kf.get('id'), 'signature': sig, 'count': len(vs)})
-            lines.append('KNOWN-FINDING: property=%s %s [%s; %d run(s); replay=%s]' % (
-                prop, kf['description'], sig, len(vs), path))
-            continue
-        n_viol += 1
-        # fresh-process replay must reproduce exactly
-        rc, out = core.fresh_process_replay(path)
-        repro = (rc == 1 and ('VIOLATION property=%s' % prop) in out)
-        lines.append('VIOLATION property=%s replay=%s' % (prop, path))
-        lines.append('  signature=%s runs=%d shrink_execs=%d fresh_replay=%s' % (
-            sig, len(vs), n_exec, 'reproduced' if repro else 'NOT-REPRODUCED(rc=%s)' % rc))
-        lines.append('  ops=%s' % core.cjson(plan.get('ops'))[:600])
-        lines.append('  detail=%s' % core.cjson(res.detail)[:1200])
-        exit_code = max(exit_code, 1) if exit_code != 2 else 2
+            if not (res.verdict == 'violation' and res.signature == sig):
+                # shrunk plan does not reproduce (should not happen): fall back to the original
+                plan = v['plan']
+                res = core.execute_plan(v_engine, copy.deepcopy(plan), prop, tier)
+            kf = core.match_known_finding(prop, sig, plan, res.detail)
+            path = core.write_replay(prop, v.get('engine', engine_name), plan, sig, res.detail,
+                                     res.log_digest, v['seed'], tier)
+            if kf is not None and want_known:
+                known_hits.append({'id': kf.get('id'), 'signature': sig, 'count': len(group)})
+                lines.append('KNOWN-FINDING: property=%s %s [%s; %s; %d run(s); replay=%s]' % (
+                    prop, kf['description'], kf.get('id'), sig, len(group), path))
+                continue
+            n_viol += 1
+            # fresh-process replay must reproduce exactly
+            rc, out = core.fresh_process_replay(path)
+            repro = (rc == 1 and ('VIOLATION property=%s' % prop) in out)
+            lines.append('VIOLATION property=%s replay=%s' % (prop, path))
+            lines.append('  signature=%s runs=%d shrink_execs=%d fresh_replay=%s' % (
+                sig, len(group), n_exec, 'reproduced' if repro else 'NOT-REPRODUCED(rc=%s)' % rc))
+            lines.append('  ops=%s' % core.cjson(plan.get('ops'))[:600])
+            lines.append('  detail=%s' % core.cjson(res.detail)[:1200])
+            exit_code = max(exit_code, 1) if exit_code != 2 else 2
     if len(by_sig) > 8:
         lines.append('  (+%d further distinct signatures not minimised)' % (len(by_sig) - 8))
         n_viol += len(by_sig) - 8
@@ -171,6 +183,12 @@ def cmd_replay(path):
     if res.verdict == 'harness_error':
         print(res.detail)
         return 2
+    kf = core.match_known_finding(prop, res.signature, doc['plan'], res.detail) \
+        if res.verdict == 'violation' else None
+    if kf is not None:
+        print('KNOWN-FINDING: property=%s %s [%s; replay=%s]' % (prop, kf['description'],
+                                                                  kf.get('id'), path))
+        return 0
     if same:
         print('VIOLATION property=%s replay=%s' % (prop, path))
         print('  detail=%s' % core.cjson(res.detail)[:2000])
